@@ -120,7 +120,11 @@ func Observe(label string, v interface{}) {
 }
 
 func Yield()             {}
+
+// Quiesce waits until every other goroutine has finished or is blocked for good (a no-op natively).
+func Quiesce() {}
 func SchedExplore(n int) {}
+func SchedExploreFine(n int) {}
 func RaceDetect()        {}
 
 // And, Or, Not: boolean connectives that do not short-circuit (no path split under the executor).
